@@ -4,7 +4,7 @@ Only property theorems, non-vacuity examples and the axiom audit live here.
 Model: PcModel/Iter.lean (iterator.cpp, IteratorHelper.cpp, iterator.hpp, PrimeGenerator.cpp table path, nthPrime.cpp,
 ParallelSieve.cpp, PrimeSieve.cpp, StorePrimes.hpp). Proofs: PcProofs/Iter*.lean.
 -/
-import PcProofs.Iter
+import PcProofs.IterRefine
 
 namespace Pc.C18
 open Pc.It
@@ -42,6 +42,44 @@ theorem count_small_primes (start stop : ℕ) :
 
 example : processSmallPrimes 0 3 5 = 2 := by decide
 
+/-- `generate_next_primes()` (the `while (true)` loop of iterator.cpp:123-156) — windows are contiguous and nothing is
+    skipped or repeated: whenever the iterator is about to continue the enumeration at `n` (fresh iterator / after `jump_to`:
+    `n = start`; live generator: `n` = its position; exhausted or deleted generator: `n = stop + 1`), for EVERY stop hint,
+    EVERY float outcome (window distances), EVERY batching and EVERY core meeting `GenSpec`: if a prime `>= n` below 2^64
+    exists the call TERMINATES (fuel `bigFuel` is never exhausted) and leaves a NON-EMPTY buffer `primes_[0 .. size_)` that is
+    strictly increasing and holds exactly the primes of `[n, primes_[size_-1]]`, with `i_ = 0`, and the iterator is again
+    ready to continue at `primes_[size_-1] + 1` -/
+theorem generate_next_primes_correct (e : Env) (he : GenSpec e) (s : St) (n : ℕ) (hr : FwdReady s n) (hn : n ≤ umax)
+    (hh : s.hint ≤ umax) (hst : s.start ≤ umax) (hp : ∃ p, p.Prime ∧ n ≤ p ∧ p ≤ umax) :
+    ∃ s', genNext e bigFuel s = .ok s' ∧ FwdDone s s' n ∧
+      ∀ L, s'.buf.getLast? = some L → FwdReady s' (L + 1) := by
+  obtain ⟨s', h1, h2⟩ := (genNext_spec e he bigFuel s n hr hn hh hst (fwdFuel_le_big s n)).1 hp
+  refine ⟨s', h1, h2, fun L hL => ?_⟩
+  obtain ⟨_, hle, hg⟩ := h2.covers L hL
+  exact ⟨h2.stop_le, Or.inr ⟨_, hg, rfl, rfl, h2.incl, by show L + 1 ≤ s'.mem.stop + 1; omega⟩⟩
+
+/-- … and it throws `primesieve_error` (never hangs, never returns garbage) exactly when no prime of `[n, 2^64-1]` is left:
+    `next_prime()` past 18446744073709551557 -/
+theorem generate_next_primes_past_the_end (e : Env) (he : GenSpec e) (s : St) (n : ℕ) (hr : FwdReady s n) (hn : n ≤ umax)
+    (hh : s.hint ≤ umax) (hst : s.start ≤ umax) (hp : ∀ p, p.Prime → n ≤ p → ¬ p ≤ umax) :
+    genNext e bigFuel s = .error .ps :=
+  (genNext_spec e he bigFuel s n hr hn hh hst (fwdFuel_le_big s n)).2 hp
+
+/-- `buffer_contract`, first call: on a fresh / just repositioned iterator (what P2.cpp:65-66 and StorePrimes.hpp do)
+    `generate_next_primes()` leaves exactly the primes from `start` up to the last buffer entry -/
+theorem buffer_contract_first (e : Env) (he : GenSpec e) (start hint : ℕ) (hs : start ≤ umax) (hh : hint ≤ umax)
+    (hp : ∃ p, p.Prime ∧ start ≤ p ∧ p ≤ umax) :
+    ∃ s', genNext e bigFuel (init start hint) = .ok s' ∧ s'.buf ≠ [] ∧ s'.i = 0 ∧
+      ∀ L, s'.buf.getLast? = some L → PrimesIn s'.buf start L ∧ FwdReady s' (L + 1) := by
+  obtain ⟨s', h1, h2, h3⟩ := generate_next_primes_correct e he (init start hint) start (fwdReady_init start hint hs) hs hh hs hp
+  exact ⟨s', h1, h2.ne, h2.i0, fun L hL => ⟨(h2.covers L hL).1, h3 L hL⟩⟩
+
+/-- the contract is satisfiable: the reference core meets `GenSpec` for all floats and batch sizes … -/
+example (fl : Floats) (batch : ℕ → ℕ) : GenSpec (refEnv fl batch) := refEnv_spec fl batch
+/-- … a fresh iterator is ready at its start, and primes exist -/
+example : FwdReady (init 100 umax) 100 := fwdReady_init 100 umax (by decide)
+example : ∃ p, p.Prime ∧ 100 ≤ p ∧ p ≤ umax := ⟨101, by norm_num, by decide, by decide⟩
+
 end Pc.C18
 
 #print axioms Pc.C18.checkedAdd_saturates
@@ -49,3 +87,6 @@ end Pc.C18
 #print axioms Pc.C18.next_window_wellformed
 #print axioms Pc.C18.prev_window_wellformed
 #print axioms Pc.C18.count_small_primes
+#print axioms Pc.C18.generate_next_primes_correct
+#print axioms Pc.C18.generate_next_primes_past_the_end
+#print axioms Pc.C18.buffer_contract_first
